@@ -252,3 +252,30 @@ def isinstance_classes(test: ast.expr) -> Optional[Tuple[str, List[str]]]:
         if names is not None:
             return p, names
     return None
+
+
+def expand_locals(fn_node: ast.AST, expr: ast.AST, depth: int = 5) -> ast.AST:
+    """`expr` with every local that has exactly one definition (a plain assignment) replaced by the
+    expression it was assigned, transitively: what the expression is computed from."""
+    import copy
+
+    defs: dict = {}
+    stores: dict = {}
+    for n in ast.walk(fn_node):
+        if isinstance(n, ast.Name) and isinstance(n.ctx, (ast.Store, ast.Del)):
+            stores[n.id] = stores.get(n.id, 0) + 1
+        if isinstance(n, ast.Assign) and len(n.targets) == 1 and isinstance(n.targets[0], ast.Name):
+            defs.setdefault(n.targets[0].id, []).append(n.value)
+        elif isinstance(n, ast.AnnAssign) and isinstance(n.target, ast.Name) and n.value is not None:
+            defs.setdefault(n.target.id, []).append(n.value)
+
+    class _X(ast.NodeTransformer):
+        def __init__(self, d: int) -> None:
+            self.d = d
+
+        def visit_Name(self, node: ast.Name) -> ast.AST:
+            if isinstance(node.ctx, ast.Load) and self.d > 0 and stores.get(node.id) == 1 and len(defs.get(node.id, [])) == 1:
+                return _X(self.d - 1).visit(copy.deepcopy(defs[node.id][0]))
+            return node
+
+    return _X(depth).visit(copy.deepcopy(expr))
